@@ -32,6 +32,17 @@ func init() {
 	reg(&PropDef{
 		ID:    "C03",
 		Title: "Token supply changes only by the documented, exactly quantified events",
-		Funcs: fcNP("x/mint/types.Minter.CalculateBlockProvision"),
+		Funcs: fcNP("x/mint/types.Minter.CalculateBlockProvision", "x/mint/keeper.Keeper.MintCoins", "x/mint/keeper.Keeper.SendInflationaryRewards",
+			"x/mint.MintBlockProvision", "x/mint.SetPreviousBlockTime", "x/mint.BeginBlocker", "x/mint/keeper.msgServer.Init", "x/oracle/keeper.Keeper.transfer"),
+		Sweeps: []string{"supply_writers"},
+		Assumptions: []string{
+			"block-time gap below 62769647725999999 ns (about 726 days), the largest for which DailyMintRate*elapsed_ms fits in int64 (precondition gap_below_overflow)",
+			"bank keeper: MintCoins/BurnCoins/Send*/InputOutputCoins change balances and supply exactly as specified in tools/govc/ghost.go and specs_sdk.go; the sum of balances equals supply is the bank module's own invariant",
+			"module account addresses of mint, fee_collector and time_based_rewards are pairwise distinct",
+		},
+		NotDecided: []string{
+			"supply changes made by SDK modules themselves (slashing burn, IBC transfer mint/burn, gov deposit burn)",
+			"bridge and dispute mint/burn amounts are decided under C14 and C13",
+		},
 	})
 }
